@@ -1047,6 +1047,13 @@ class BlocksWrite(Component):
             return (f'blocksw:{profile}:panic:{cls}', f'writing or re-reading a block list panicked ({profile}): {cls}')
         if h == 'ok':
             rb = f.get('readback', '')
+            if rb.startswith('differs:'):
+                # the one representational quirk: md5 Some([0; 16]) is stored like None
+                op, cf = parse_case(case)
+                lits = cf.get('list', '').split(';')
+                canon = ';'.join(l[:-32] + 'none' if l.startswith('S:') and l.endswith(':' + '00' * 16) else l for l in lits)
+                if canon != cf.get('list') and rb[len('differs:'):].split(';')[0] == canon.split(';')[0]:
+                    return ('blocksw:readback:md5-some-zero', 'STREAMINFO with md5 = Some([0; 16]) reads back with md5 = None')
             if rb != 'equal':
                 return ('blocksw:readback:' + _canon_err(rb), f'the writer accepted the list but it reads back as {rb[:160]}')
             by = f.get('bytes', '')
@@ -1557,4 +1564,25 @@ PROPS['C15'] = dict(
     note='That a writer built from documented values then encodes successfully relies on C01 (fallback to VERBATIM); it is exhibited by the grid run with real data. Ranges and limits are regenerated from encode.rs.',
     trusted_base=COMMON_TRUST,
     assumptions=[],
+)
+
+PROPS['C11'] = dict(
+    module='FlacModel.Props.C11',
+    theorems=['Flac.C11.streaminfo_roundtrip', 'Flac.C11.seektable_roundtrip', 'Flac.C11.vorbis_roundtrip', 'Flac.C11.picture_roundtrip', 'Flac.cue_roundtrip',
+              'Flac.C11.body_roundtrip', 'Flac.C11.block_roundtrip', 'Flac.C11.blocklist_roundtrip', 'Flac.C11.reported_size_eq_written',
+              'Flac.C11.body_no_panic', 'Flac.C11.seektable_single', 'Flac.C11.md5_some_zero_not_roundtrip'],
+    components=[BlocksWrite(), BlocksRead()],
+    rule='block lists as literals built through the public constructors: every block kind alone at its extremes (1-bit and 32-bit STREAMINFO, out-of-range fields, all-zero MD5, 2^24-1 byte padding/application/'
+         'comment/picture bodies and one byte more, seek tables with placeholders and offsets at 2^64-2 / 2^64-1, arbitrary UTF-8 comments, CD-DA and non-CD-DA cue sheets at 99/254 tracks and 100/255 index points and '
+         'one more, ISRC and catalog variants, cue sheets imported from text), random legal lists and lists breaking the single-instance/ordering rules; byte-level metadata sections (valid, bit-flipped, truncated, '
+         'header surgery on type/size/last, oversized declared lengths), each read, described, written again and re-read; both build profiles',
+    claim='blocklist_roundtrip: for EVERY block list of values the public types admit (blockWf: field widths, UTF-8 strings, contiguous seek tables, constructible cue sheets of any number of tracks/index points) '
+          'whose write succeeds, reading the written bytes (followed by anything) returns the same list and consumes exactly the bytes written; built from body_roundtrip for each of the seven block kinds '
+          '(cue_roundtrip by induction over tracks and index points, vorbis/seektable by induction over fields/points, STREAMINFO by 144-bit arithmetic). reported_size_eq_written: bytes() = body bytes written, total = +4. '
+          'body_no_panic: the writer\'s unwraps (8-bit track and index counts, 1-bit depth) cannot fail on admitted values (uses the regenerated limits 99/254/100/255). seektable_single: two SEEKTABLEs are refused. '
+          'md5_some_zero_not_roundtrip: the recorded known finding, proved as a negative witness.',
+    note='The reverse direction (bytes accepted by the reader can be written again and re-read equal) is decided by the BlocksRead correspondence and oracle, not yet by a theorem. '
+         'The model of the block codec is hand-written; limits, type codes, padding widths and the fix-shaped facts (ISRC length rule, catalog length rule, u64::MAX seek point rule, index capacity) are regenerated from the source.',
+    trusted_base=COMMON_TRUST,
+    assumptions=['bitstream-io read_to_vec / LimitedReader semantics as modelled by takeBytes (EOF when the declared size exceeds what is left)'],
 )
